@@ -644,3 +644,23 @@ fn c11_capsule_reason_1024() {
 fn c11_capsule_reason_1025() {
     capsule_reason_boundary::<1025, 1033>(false)
 }
+
+// @h props=C11 tier=quick t=900 sub=qpack-string-huge-concrete
+// @fn wtransport-proto/src/qpack.rs Decoder::decode_string::<7> Decoder::decode_integer::<7>
+// @bound one concrete length prefix claiming 2^63 + 126 bytes (0x7f then nine continuation octets), followed by 0..=2 symbolic bytes
+// @oracle a claimed length beyond the input is UnexpectedFin; in particular nothing is allocated from the claim (an allocation of more than isize::MAX bytes panics with "capacity overflow")
+// @assume Huffman path cut
+#[kani::proof]
+#[kani::unwind(14)]
+#[kani::stub(core::str::validations::run_utf8_validation, crate::common::utf8_validation_stub)]
+#[kani::stub(httlib_huffman::decode, crate::common::huffman_decode_cut)]
+fn c11_qpack_decode_string_huge_concrete() {
+    let t: [u8; 2] = kani::any();
+    let n: usize = kani::any();
+    kani::assume(n <= 2);
+    let buf: [u8; 12] = [0x7f, 0xff, 0xff, 0xff, 0xff, 0xff, 0xff, 0xff, 0xff, 0x7f, t[0], t[1]];
+    let mut s: &[u8] = &buf[..10 + n];
+    let got = q::decode_string::<7>(&mut s);
+    assert!(matches!(got, Err(DecodingError::UnexpectedFin)), "claimed length of 2^63 bytes not answered with UnexpectedFin");
+    kani::cover!(n == 2, "two bytes after the prefix");
+}
